@@ -5,10 +5,15 @@ Ties
      $VERIF_REPO on every run; the Lean obligations over them are re-elaborated.
   C  every case (a .emb text) is compiled by the real front end; the IR just before
      `attribute_checker.normalize_and_verify` is abstracted (harness/lib/c14abs.py) and fed to
-     the Lean model (`CHECK`); the sorted error kinds must be equal.
+     the Lean model (`CHECK`); the error kinds must be equal IN ORDER (the 64-bit gate
+     included, through C05's `Emboss.Bounds.gate`); for accepted modules the byte order
+     the front end attached to every physical field (IR after normalisation) must equal
+     the model's `effByteOrder` (`BYTEORDER`).
 Spec oracle (Python, written from doc/language-reference.md): the generator knows whether a
 case obeys every documented rule or which single rule it breaks; accepted-but-should-reject,
-rejected-but-should-accept and any Python exception are failing inputs on the real code.
+rejected-but-should-accept and any Python exception are failing inputs on the real code; for
+every accepted module the byte order of every physical field must be the documented one (own
+attribute, else nearest enclosing `$default`, else "Null": c14abs.spec_byte_orders).
 """
 import json
 import os
@@ -19,8 +24,7 @@ from harness.translate import c14 as tr
 
 PROP = "C14"
 MODEL = "model_c14"
-# crash sites the model reproduces as `crash` (the other known crashes are modelled as the
-# error the validator is meant to give; see Model/Constraints.lean)
+# crash sites (open findings) the model reproduces as `crash`
 MODELLED_CRASHES = {"crash:ir_util.py:get_attribute:AssertionError",
                     "crash:constraints.py:_check_type_requirements_for_field:ValueError"}
 
@@ -48,12 +52,17 @@ def observe(files, main="m.emb"):
     else:
         ob["kinds"] = c14abs.real_kinds(errors)
         ob["messages"] = [g[0].message.split("\n")[0] for g in errors]
+        ob["locations"] = [str(g[0].location) for g in errors]
+        if not errors and ir is not None:
+            ob["bo_real"] = c14abs.real_byte_orders(ir)
     # abstraction for the model
     try:
         ir1, errors1, exc1 = compile_files(files, main, "normalize_and_verify")
         if exc1 is not None:
             ob["scope"] = "earlier-crash"
             return ob
+        if not errors1 and ir1 is not None and "bo_real" in ob:
+            ob["bo_spec"] = c14abs.spec_byte_orders(ir1)
         if errors1:
             k1 = c14abs.real_kinds(errors1)
             if all(k in c14abs.EARLY_KINDS for k in k1):
@@ -73,12 +82,36 @@ def model_line(program):
     return "CHECK " + json.dumps(program, separators=(",", ":"))
 
 
+def bo_line(program):
+    return "BYTEORDER " + json.dumps(program, separators=(",", ":"))
+
+
 def expected_model_answer(ob):
-    """What the model must print if it agrees with the real front end."""
+    """What the model must print if it agrees with the real front end: the error kinds in the
+    order of the real error list."""
     if ob["exc"] is not None:
         return None     # compared loosely: model must contain `crash`
-    ks = [k for k in ob["kinds"] if k != "gate"]
-    return "errors" + (" " + ";".join(sorted(ks)) if ks else "")
+    ks = ob["kinds"]
+    return "errors" + (" " + ";".join(ks) if ks else "")
+
+
+def expected_bo_answer(ob, program):
+    """`bo <typeid>.<field>=<value|->;…` in the model's enumeration order (modules in order,
+    type definitions in preorder, physical fields in order), from the real IR after
+    normalisation."""
+    real = ob["bo_real"]
+    out = []
+
+    def go(mf, td):
+        for f in td["fields"]:
+            if not f["virtual"]:
+                out.append("%d.%s=%s" % (td["id"], f["name"], real.get((mf, td["path"], f["name"])) or "-"))
+        for sub in td["sub"]:
+            go(mf, sub)
+    for m in program:
+        for td in m["types"]:
+            go(m["file"], td)
+    return "bo" + (" " + ";".join(out) if out else "")
 
 
 # ======================================================================== generator
@@ -410,6 +443,236 @@ def violation_cases(words):
     return out
 
 
+def _array_shapes_struct(elem, w):
+    """Field lines (struct body) declaring arrays of `elem` (w bits per element, w % 8 == 0) in
+    every array form: 1-D, 2-D, 3-D, automatic and dynamic outermost length."""
+    b = w // 8
+    out = [("1-D", "  0 [+%d]  %s[2]  x\n" % (2 * b, elem)),
+           ("2-D", "  0 [+%d]  %s[2][2]  x\n" % (4 * b, elem)),
+           ("3-D", "  0 [+%d]  %s[1][2][3]  x\n" % (6 * b, elem)),
+           ("automatic", "  0 [+1]  UInt  n\n  1 [+n]  %s[]  x\n" % elem),
+           ("2-D automatic", "  0 [+1]  UInt  n\n  1 [+n]  %s[2][]  x\n" % elem)]
+    if b:
+        out.append(("dynamic", "  0 [+1]  UInt  n\n  1 [+n*%d]  %s[n]  x\n" % (b, elem)))
+    return out
+
+
+def array_element_cases():
+    """The width / explicit-size rules hold for the ELEMENT type of an array exactly as for a
+    scalar field ("scalar widths in their documented ranges", "explicit sizes matching"): every
+    prelude type, enums, struct/bits/external elements; every array form."""
+    out = []
+    V = lambda text, rule, kinds, tag: out.append(Case(text, False, rule, kinds, tag))      # noqa: E731
+    A = lambda text, rule, tag: out.append(Case(text, True, rule, tag=tag))                 # noqa: E731
+    for ty in SCALARS:
+        for w in (0, 72, 128, 136):
+            for form, body in _array_shapes_struct("%s:%d" % (ty, w), w):
+                V(mod("struct Foo:\n" + body), "array-element-width", {"req-not-met:" + ty},
+                  "%s:%d element, %s" % (ty, w, form))
+        for w in (8, 16, 64):
+            for form, body in _array_shapes_struct("%s:%d" % (ty, w), w):
+                A(mod("struct Foo:\n" + body), "array-element-width", "%s:%d element, %s" % (ty, w, form))
+        V(mod("bits Foo:\n  0 [+0]  %s:0[2]  x\n" % ty), "array-element-width", {"req-not-met:" + ty},
+          "%s:0 element in bits" % ty)
+        V(mod("bits Foo:\n  0 [+0]  %s:0[2][2]  x\n" % ty), "array-element-width", {"req-not-met:" + ty},
+          "%s:0 element in bits, 2-D" % ty)
+        V(mod("bits Foo:\n  0 [+130]  %s:65[2]  x\n" % ty), "array-element-width",
+          {"req-not-met:" + ty, "bits-too-big"}, "%s:65 element in bits" % ty)
+        A(mod("bits Foo:\n  0 [+64]  %s:32[2]  x\n" % ty), "array-element-width", "%s:32[2] in bits" % ty)
+        A(mod("bits Foo:\n  0 [+63]  %s:7[3][3]  x\n" % ty), "array-element-width", "%s:7[3][3] in bits" % ty)
+    for w in (8, 16, 24, 128):
+        for form, body in _array_shapes_struct("Float:%d" % w, w):
+            V(mod("struct Foo:\n" + body), "array-element-width", {"req-not-met:Float"},
+              "Float:%d element, %s" % (w, form))
+    V(mod("bits Foo:\n  0 [+32]  Float:16[2]  x\n"), "array-element-width", {"req-not-met:Float"},
+      "Float:16 element in bits")
+    for w in (32, 64):
+        for form, body in _array_shapes_struct("Float:%d" % w, w):
+            A(mod("struct Foo:\n" + body), "array-element-width", "Float:%d element, %s" % (w, form))
+    for form, body in _array_shapes_struct("Flag:8", 8):
+        V(mod("struct Foo:\n" + body), "array-element-size", {"explicit-mismatch"}, "Flag:8 element, " + form)
+    V(mod("bits Foo:\n  0 [+4]  Flag:2[2]  x\n"), "array-element-size", {"explicit-mismatch"}, "Flag:2 element in bits")
+    V(mod("bits Foo:\n  0 [+0]  Flag:0[2]  x\n"), "array-element-size", {"explicit-mismatch"}, "Flag:0 element in bits")
+    A(mod("bits Foo:\n  0 [+6]  Flag:1[2][3]  x\n"), "array-element-size", "Flag:1[2][3] in bits")
+    # enums
+    for form, body in _array_shapes_struct("Ee:72", 72):
+        V(mod("enum Ee:\n  AA = 1\nstruct Foo:\n" + body), "array-element-width", {"enum-width"},
+          "72-bit enum element, " + form)
+    for form, body in _array_shapes_struct("Ee:16", 16):
+        V(mod("enum Ee:\n  [maximum_bits: 8]\n  AA = 1\nstruct Foo:\n" + body), "array-element-width",
+          {"enum-width"}, "16-bit element of an 8-bit enum, " + form)
+        A(mod("enum Ee:\n  [maximum_bits: 16]\n  AA = 1\nstruct Foo:\n" + body), "array-element-width",
+          "16-bit element of a 16-bit enum, " + form)
+    for form, body in _array_shapes_struct("Ee:0", 0):
+        V(mod("enum Ee:\n  AA = 1\nstruct Foo:\n" + body), "array-element-width", {"enum-width"},
+          "0-bit enum element, " + form)
+    V(mod("enum Ee:\n  [maximum_bits: 3]\n  AA = 1\nbits Foo:\n  0 [+8]  Ee:4[2]  x\n"), "array-element-width",
+      {"enum-width"}, "4-bit element of a 3-bit enum in bits")
+    # explicit size of struct / bits / external elements
+    for form, body in _array_shapes_struct("Ss:8", 8) + _array_shapes_struct("Ss:32", 32):
+        V(mod("struct Ss:\n  0 [+2]  UInt  a\nstruct Foo:\n" + body), "array-element-size",
+          {"explicit-mismatch"}, "explicit element size of a 16-bit struct, " + form)
+    for form, body in _array_shapes_struct("Ss:16", 16):
+        A(mod("struct Ss:\n  0 [+2]  UInt  a\nstruct Foo:\n" + body), "array-element-size",
+          "Ss:16 element of a 16-bit struct, " + form)
+    for form, body in _array_shapes_struct("Bb:16", 16):
+        V(mod("bits Bb:\n  0 [+8]  UInt  a\nstruct Foo:\n" + body), "array-element-size",
+          {"explicit-mismatch"}, "Bb:16 element of an 8-bit bits, " + form)
+    ext = ("external Ext:\n  [addressable_unit_size: 8]\n"
+           "  [static_requirements: $is_statically_sized && $static_size_in_bits == 16]\n")
+    for form, body in _array_shapes_struct("Ext:8", 8) + _array_shapes_struct("Ext:24", 24):
+        V(ext + "struct Foo:\n" + body, "array-element-width", {"req-not-met:Ext"},
+          "external element violating its static_requirements, " + form)
+    for form, body in _array_shapes_struct("Ext:16", 16):
+        A(ext + "struct Foo:\n" + body, "array-element-width", "external element meeting its requirements, " + form)
+    return out
+
+
+def default_scope_cases():
+    """`$default byte_order` reaches exactly the sub-entities of the scope that declares it
+    (nearest one wins): a later SIBLING of a structure with its own `$default` is governed by
+    the module's (or by none).  The verdict on the attached byte orders comes from
+    c14abs.spec_byte_orders; these are the shapes."""
+    out = []
+    A = lambda text, tag: out.append(Case(text, True, "default-scope", tag=tag))               # noqa: E731
+    V = lambda text, kinds, tag: out.append(Case(text, False, "default-scope", kinds, tag))    # noqa: E731
+    for x, y in (("LittleEndian", "BigEndian"), ("BigEndian", "LittleEndian")):
+        m = '[$default byte_order: "%s"]\n' % x
+        dy = '  [$default byte_order: "%s"]\n' % y
+        A(m + "struct Aa:\n" + dy + "  0 [+2]  UInt  a\nstruct Bb:\n  0 [+2]  UInt  b\n  2 [+4]  Int:16[2]  c\n",
+          "override in the first struct, sibling after it")
+        A(m + "struct Aa:\n  0 [+2]  UInt  a\nstruct Bb:\n" + dy + "  0 [+2]  UInt  b\nstruct Cc:\n  0 [+4]  Float  c\n"
+          "struct Dd:\n" + dy + "  0 [+8]  Bcd  d\nstruct Ee:\n  0 [+2]  bits:\n    0 [+16]  UInt  e\n",
+          "override in the 2nd and 4th struct")
+        A(m + "struct Outer:\n" + dy + "  struct In1:\n    0 [+2]  UInt  a\n  struct In2:\n"
+          '    [$default byte_order: "%s"]\n    struct Deep:\n      0 [+2]  UInt  d\n    0 [+2]  UInt  b\n'
+          "  struct In3:\n    0 [+2]  UInt  c\n  0 [+2]  In1  i1\n  2 [+2]  In2  i2\n  4 [+2]  In3  i3\n"
+          "  6 [+2]  UInt  own\nstruct Later:\n  0 [+2]  UInt  z\n  2 [+2]  Outer.In1  q\n" % x,
+          "nested definitions: inner override, later inner sibling, later outer sibling")
+        A(m + "enum Kk:\n  AA = 1\nstruct Aa:\n" + dy + "  0 [+2]  Kk  a\nbits Flags:\n  0 [+16]  UInt  f\n"
+          "struct Bb:\n  0 [+2]  Kk  b\n  2 [+2]  Flags  g\n  4 [+1]  UInt  one\n",
+          "enum and bits typed fields in the later sibling")
+        A("struct Aa:\n" + dy + "  0 [+2]  UInt  a\nstruct Bb:\n  0 [+1]  UInt  b\n  1 [+3]  UInt:8[3]  c\n",
+          "no module default: later sibling has only one-byte fields (Null)")
+        A("struct Aa:\n" + dy + '  0 [+2]  UInt  a\nstruct Bb:\n  0 [+2]  UInt  b\n    [byte_order: "%s"]\n' % x,
+          "no module default: later sibling states its own")
+        V("struct Aa:\n" + dy + "  0 [+2]  UInt  a\nstruct Bb:\n  0 [+2]  UInt  b\n", {"bo-required"},
+          "no module default: a struct-level $default does not reach a later sibling")
+        V("struct Outer:\n  struct In1:\n" + '    [$default byte_order: "%s"]\n' % y
+          + "    0 [+2]  UInt  a\n  0 [+2]  In1  i\n  2 [+2]  UInt  own\n", {"bo-required"},
+          "a nested definition's $default does not reach the enclosing struct's fields")
+    return out
+
+
+def gate_cases():
+    """The 64-bit range gate (`_check_bounds_on_runtime_integer_expressions`; C05's
+    `Emboss.Bounds.gate` inside the C14 model): shapes that reach each of its error kinds, alone
+    and next to errors of the other traversals of `check_constraints` (order)."""
+    out = []
+    V = lambda text, kinds, tag: out.append(Case(text, False, "gate64", kinds, tag))      # noqa: E731
+    A = lambda text, tag: out.append(Case(text, True, "gate64", tag=tag))                 # noqa: E731
+    h = "struct Foo:\n  0 [+8]  UInt  x\n  8 [+8]  Int  y\n  16 [+4]  UInt  z\n"
+    V(mod(h + "  let a = x + 1\n"), {"gate:range"}, "2^64 reachable")
+    V(mod(h + "  let a = x - 1\n"), {"gate:range"}, "-1 .. 2^64-2")
+    V(mod(h + "  let a = x * x\n"), {"gate:range"}, "2^128")
+    V(mod(h + "  let a = 18446744073709551616\n"), {"gate:const"}, "constant 2^64")
+    V(mod(h + "  let a = 0 - 9223372036854775809\n"), {"gate:const"}, "constant -2^63-1")
+    V(mod(h + "  let a = x == y\n"), {"gate:mixed"}, "uint64-only compared with int64-only")
+    V(mod(h + "  let a = (x > y) || (z == 3)\n"), {"gate:mixed"}, "mixed inside a boolean expression")
+    V(mod(h + "  let a = z + 1\n  let b = x + 1\n  let c = y - 1\n"), {"gate:range"}, "two of three")
+    V(mod(h + "  if x + 1 > 5:\n    20 [+1]  UInt  w\n"), {"gate:range"}, "in an existence condition")
+    V(mod(h + "  20 [+8]  UInt  w\n    [requires: this + 1 > 5]\n"), {"gate:range"}, "in [requires]")
+    V(mod("struct Foo:\n  0 [+1]  UInt  n\n  1 [+n]  UInt  v\n  let a = v + 1\n"),
+      {"req-not-met:UInt", "gate:unbounded"}, "dynamically sized integer: unbounded value")
+    V(mod(h + "  let int = x + 1\n"), {"reserved-field", "gate:range"}, "reserved name and range")
+    V(mod("enum Ee:\n  AA = -1\n  BB = 9223372036854775808\n" + h + "  let a = x + 1\n"),
+      {"enum-value-range", "gate:range"}, "enum range and gate")
+    V(mod(h + "  let a = x + 1\n  24 [+9]  UInt  big\nbits Bb:\n  0 [+65]  UInt  q\n"),
+      {"req-not-met:UInt", "bits-too-big", "gate:range"}, "three traversals")
+    A(mod(h + "  let a = z + 1\n  let b = z - 4294967296\n  let c = z * 4294967296\n"
+          "  let d = $max(z, 7) * 2\n"), "all fit")
+    A(mod(h + "  let a = 18446744073709551615\n  let b = -9223372036854775808\n"), "extreme constants fit")
+    A(mod("external Ext:\n  [addressable_unit_size: 8]\n"
+          "  [static_requirements: $static_size_in_bits * 18446744073709551616 > 0]\n" + h),
+      "[static_requirements] is not gated")
+    return out
+
+
+_RENAME = ["Foo", "Ee", "Ss", "Bb", "Ext", "Dyn", "Cc", "Inner"]
+
+
+def multi_violation_cases(r, pool, n):
+    """Modules breaking two or three rules at once (in different type definitions): the errors of
+    the first failing pass must all be reported, in the front end's traversal order (compared
+    with the model).  Built from the single-rule catalogue by renaming the type definitions."""
+    import re as _re
+    head = '[$default byte_order: "LittleEndian"]\n'
+    pool = [c for c in pool if c.accept is False and c.text.startswith(head)
+            and c.text.count("[$default") == 1]
+    out = []
+    for i in range(n):
+        parts, tags = [], []
+        for j, c in enumerate(r.sample(pool, r.choice([2, 2, 3]))):
+            body = c.text[len(head):]
+            for nm in _RENAME:
+                body = _re.sub(r"\b%s\b" % nm, "%s%s" % (nm, "XYZ"[j]), body)
+            parts.append(body)
+            tags.append(c.tag or c.rule)
+        out.append(Case(head + "".join(parts), False, "multi-violation", None, tag=" + ".join(tags)))
+    return out
+
+
+def order_cases(r, words, n):
+    """One type definition per traversal of a pass, each breaking the rule that traversal
+    checks; random subsets in random definition order (plus the full sets in reverse order).
+    The front end reports traversal by traversal, so the order of the errors is NOT the order
+    of the definitions; the model must give the same order."""
+    import re as _re
+    camel = sorted(w for w in words if _re.fullmatch(r"[A-Z][a-zA-Z0-9]*[a-z][a-zA-Z0-9]*", w))
+    shouty = sorted(w for w in words if _re.fullmatch(r"[A-Z][A-Z_0-9]*[A-Z_][A-Z_0-9]*", w))
+    snake = sorted(w for w in words if _re.fullmatch(r"[a-z][a-z_0-9]*", w))
+    constraints = [
+        "struct Sb:\n  0 [+1]  UInt  x\nbits Bi:\n  0 [+8]  Sb  s\n",                    # [Structure, Type]
+        "struct Ef:\n  0 [+4]  UInt[4]  x\n",                                            # [ArrayType]
+        "struct Eb:\n  0 [+3]  UInt:12[2]  x\n",                                         # [Structure, ArrayType]
+        "struct Ia:\n  0 [+8]  UInt:8[][2]  x\n  0 [+1]  UInt  n\n  1 [+8]  UInt:8[n][2]  y\n",  # [ArrayType, ArrayType]
+        "bits Bt:\n  0 [+64]  UInt  a\n  64 [+1]  Flag  b\n",                            # [Structure]
+        "struct Rq:\n  0 [+9]  UInt  x\n  9 [+2]  UInt:8  y\n",                          # [Structure, Type]
+        "struct Rf:\n  0 [+1]  UInt  %s\n" % (snake[0] if snake else "int"),             # [Field]
+        "enum Ev:\n  %s = 1\n" % (shouty[0] if shouty else "NULL"),                      # [EnumValue]
+        "struct %s:\n  0 [+1]  UInt  x\n" % (camel[0] if camel else "Class"),            # [TypeDefinition]
+        "struct Sr:\n  0 [+1]  UInt  x\n  let z = x + 1\n  let y = Sr.z\n",              # [Expression] static refs
+        "enum Er:\n  [maximum_bits: 8]\n  AA = 256\n  BB = 1\n  CC = 300\n",             # [Enum]
+        "struct Gg:\n  0 [+8]  UInt  x\n  let a = x + 1\n  let b = x * x\n",             # [Expression] gate
+        "struct Pp(n: UInt:65):\n  0 [+1]  UInt  x\n",                                   # [RuntimeParameter]
+    ]
+    verify = [
+        "struct Be:\n  0 [+1]  UInt  x\n    [(zzz) foo: 1]\nenum Bv:\n  AA = 1\n    [(yyy) foo: 1]\n",     # [Attribute]
+        "struct Fs:\n  [fixed_size_in_bits: 16]\n  0 [+1]  UInt  x\n",                   # [Structure]
+        "enum Mb:\n  [maximum_bits: 65]\n  AA = 1\n",                                    # [Enum]
+        "external Xu:\n  [addressable_unit_size: 4]\n",                                  # [External]
+        "struct Bo:\n  0 [+2]  UInt  x\n    [byte_order: \"Null\"]\n  let v = x\n  2 [+4]  Float  f\n    [requires: true]\n",  # [Field]
+    ]
+    attrs = [
+        "struct Ta:\n  [maximum_bits: 8]\n  0 [+1]  UInt  x\n",                          # [TypeDefinition]
+        "struct Fa:\n  0 [+1]  UInt  x\n    [fixed_size_in_bits: 8]\n    [text_output: \"Maybe\"]\n",  # [Field]
+        "enum Va:\n  AA = 1\n    [text_output: \"Skip\"]\n",                             # [EnumValue]
+        "struct Tb:\n  struct Inner:\n    [is_signed: true]\n    0 [+1]  UInt  y\n      [frob: 1]\n  0 [+1]  UInt  x\n",
+    ]
+    early = ["struct Pa(n: UInt):\n  struct Inner(e: UInt):\n    0 [+1]  UInt  y\n  0 [+1]  UInt  x\n",
+             "enum Pe:\n  AA = 1\nstruct Pb(e: Pe:8, m: Int):\n  0 [+1]  UInt  x\n"]
+    head = '[$default byte_order: "LittleEndian"]\n'
+    out = []
+    for fam, blocks in (("constraints", constraints), ("verify", verify), ("attributes", attrs), ("early", early)):
+        out.append(Case(head + "".join(reversed(blocks)), False, "order:" + fam, None, tag="all, reversed"))
+        out.append(Case(head + "".join(blocks), False, "order:" + fam, None, tag="all, in traversal order"))
+        for _ in range(n if fam == "constraints" else max(2, n // 4)):
+            k = r.randint(2, min(5, len(blocks)))
+            sub = r.sample(blocks, k)
+            out.append(Case(head + "".join(sub), False, "order:" + fam, None, tag="%d random definitions" % k))
+    return out
+
+
 def finding_cases():
     """Pinned inputs of the findings of this property (findings.d/C14.json) and of the fixed
     ones that touch its code (findings.d/_fixed.json), plus their close variants."""
@@ -417,7 +680,8 @@ def finding_cases():
     try:
         with open(os.path.join(common.VERIF, "findings.d", "C14.json")) as f:
             for k in json.load(f):
-                out.append(Case(k["input"], False, "finding", None, tag="finding " + k["key"][:60]))
+                if k.get("status") == "open":       # fixed ones: corpus/C14/fixed-*.json
+                    out.append(Case(k["input"], False, "finding", None, tag="finding " + k["key"][:60]))
     except OSError:
         pass
     V = lambda text, kinds, tag: out.append(Case(text, False, "finding-variant", kinds, tag))  # noqa: E731
@@ -430,6 +694,10 @@ def finding_cases():
       {"attr-type:is_integer"}, "is_integer integer")
     V('[expected_back_ends: true]\nstruct Foo:\n  0 [+1]  UInt  x\n', {"attr-type:expected_back_ends"},
       "expected_back_ends boolean")
+    V('[expected_back_ends: "cpp, xx"]\n[(xx) expected_back_ends: true]\nstruct Foo:\n  0 [+1]  UInt  x\n',
+      None, "qualified duplicate of expected_back_ends")
+    V('struct Foo:\n  0 [+2]  UInt  x\n    [byte_order: "BigEndian"]\n    [(cpp) byte_order: "LittleEndian"]\n',
+      None, "qualified duplicate of byte_order")
     return out
 
 
@@ -535,6 +803,22 @@ def rand_module(r):
         if st_default:
             sl.append('  [$default byte_order: "%s"]' % st_default)
             feats.append("struct-default")
+        # nested type definitions (sub-entities of this struct): each may override the default
+        # again; what it declares must not reach its later siblings nor this struct's fields
+        nested = []
+        for k in range(r.choice([0, 0, 1, 2])):
+            in_default = r.choice([None, "LittleEndian", "BigEndian"])
+            inm = "In%s%d" % ("abc"[i], k)
+            sl.append("  struct %s:" % inm)
+            if in_default:
+                sl.append('    [$default byte_order: "%s"]' % in_default)
+            nb = r.choice([2, 4, 8])
+            sl.append("    0 [+%d]  %s  g0" % (nb, r.choice(SCALARS)))
+            if not (in_default or have_default):
+                sl.append('      [byte_order: "%s"]' % r.choice(["LittleEndian", "BigEndian"]))
+            sl.append("    %d [+1]  UInt  g1" % nb)
+            nested.append((inm, nb + 1))
+            feats.append("nested-struct" + ("-default" if in_default else ""))
         pos = 0
         nf = r.randint(1, 6)
         dynamic = False
@@ -589,8 +873,8 @@ def rand_module(r):
                 pos += size
                 feats.append("anon-bits")
                 continue
-            elif kind == "struct" and structs:
-                s, ssize = r.choice(structs)
+            elif kind == "struct" and (structs or nested):
+                s, ssize = r.choice(structs + nested)
                 if ssize is None:
                     continue
                 if r.random() < 0.3:
@@ -641,8 +925,8 @@ def mutate_valid(r, text):
     """One random single-rule violation applied to a valid module: returns (text, rule) or None."""
     import re as _re
     lines = text.split("\n")
-    choice = r.choice(["drop-bo", "null-bo", "widen-enum", "big-scalar", "dup", "misplace", "reserved",
-                       "bad-fixed"])
+    choice = r.choice(["drop-bo", "null-bo", "big-elem", "big-scalar", "dup", "misplace", "reserved",
+                       "bad-fixed", "plain-default"])
     if choice == "drop-bo":
         # remove every byte_order: multi-byte fields (if any) lose theirs
         new = [ln for ln in lines if "byte_order" not in ln]
@@ -678,6 +962,31 @@ def mutate_valid(r, text):
         i = r.choice(idx)
         return "\n".join(lines[:i] + [_re.sub(r"\d+", lambda m: str(int(m.group(0)) + 8), lines[i])]
                          + lines[i + 1:]), "attributes", {"fixed-size"}
+    if choice == "big-elem":
+        # an array whose ELEMENT type gets an out-of-range width (the field is resized with it)
+        rx = _re.compile(r"^(\s+\d+ \[\+)\d+(\]  (?:UInt|Int|Bcd)):\d+((?:\[\d+\])+)(  \w+)$")
+        idx = [i for i, ln in enumerate(lines) if rx.match(ln)]
+        if not idx:
+            return None
+        i = r.choice(idx)
+        m = rx.match(lines[i])
+        n = 1
+        for d in _re.findall(r"\[(\d+)\]", m.group(3)):
+            n *= int(d)
+        w = r.choice([0, 72, 128])
+        new = "%s%d%s:%d%s%s" % (m.group(1), n * w // 8, m.group(2), w, m.group(3), m.group(4))
+        return "\n".join(lines[:i] + [new] + lines[i + 1:]), "array-element-width", {"req"}
+    if choice == "plain-default":
+        # `$default byte_order` written as a plain attribute where only the $default form exists
+        idx = [i for i, ln in enumerate(lines) if ln.lstrip().startswith("[$default byte_order")
+               and (ln.startswith("[") or ln.startswith("  ["))]
+        if not idx:
+            return None
+        i = r.choice(idx)
+        # keep the original too with probability 1/2 (plain + $default in the same scope)
+        new = lines[i].replace("$default ", "")
+        keep = [lines[i]] if r.random() < 0.5 else []
+        return "\n".join(lines[:i] + keep + [new] + lines[i + 1:]), "attributes", {"unknown"}
     if choice == "big-scalar":
         idx = [i for i, ln in enumerate(lines) if _re.match(r"  \d+ \[\+\d+\]  (UInt|Int|Bcd)  f\d+$", ln)]
         if not idx:
@@ -722,6 +1031,21 @@ def corpus_cases():
     return out
 
 
+def byte_order_verdict(ob):
+    """Documented byte order of every physical field vs the attribute the front end attached
+    (accepted modules only).  None if they agree."""
+    if "bo_real" not in ob or "bo_spec" not in ob:
+        return None
+    real, spec = ob["bo_real"], ob["bo_spec"]
+    bad = [(k, spec.get(k), real.get(k)) for k in sorted(set(real) | set(spec), key=str)
+           if spec.get(k) != real.get(k)]
+    if not bad:
+        return None
+    return "field byte orders differ from the documented ones (own attribute, else nearest enclosing " \
+           "$default, else Null): " + "; ".join(
+               "%s.%s documented %s, front end attached %s" % (k[1], k[2], sp, re_) for k, sp, re_ in bad[:4])
+
+
 def spec_verdict(case, ob):
     """Independent oracle on the real output.  Returns None if fine, else a description."""
     if ob["exc"] is not None:
@@ -735,7 +1059,7 @@ def spec_verdict(case, ob):
         if case.kinds is not None and not (set(kinds) & set(case.kinds)):
             return "breaks the documented rule '%s' (%s) but the errors are about something else: %s" % (
                 case.rule, case.tag, ob["messages"][:3])
-    return None
+    return byte_order_verdict(ob)
 
 
 def run_cases(chk, cases, model_ok, stats):
@@ -749,6 +1073,10 @@ def run_cases(chk, cases, model_ok, stats):
         for k in (ob["kinds"] or []):
             kk = k.split(":")[0]
             stats["kinds"][kk] = stats["kinds"].get(kk, 0) + 1
+        if len(ob["kinds"] or []) > 1:
+            stats["multi_error_cases"] = stats.get("multi_error_cases", 0) + 1
+        if "bo_spec" in ob:
+            stats["byte_order_fields_checked"] = stats.get("byte_order_fields_checked", 0) + len(ob["bo_spec"])
         if ob["kinds"] or ob["exc"]:
             chk.nontrivial("reject:" + c.text)
         elif c.rule not in ("testdata",):
@@ -770,36 +1098,55 @@ def run_cases(chk, cases, model_ok, stats):
             key = ob.get("exc_key") if ob["exc"] is not None else None
             chk.violation("input", {"input": c.text, "files": c.files if len(c.files) > 1 else None,
                                     "main": c.main, "rule": c.rule, "tag": c.tag,
-                                    "expected": "accepted" if c.accept else "rejected (rule: %s)" % c.rule,
+                                    "expected": "accepted" if c.accept else
+                                    ("rejected (rule: %s)" % c.rule if c.accept is False else "documented byte orders"),
                                     "observed": ob["exc"] or ob["messages"], "why": why},
                           key=key or ("input:" + c.text))
         if ob["program"] is not None:
             lines.append(model_line(ob["program"]))
             idx.append(len(obs) - 1)
+            if "bo_real" in ob:
+                lines.append(bo_line(ob["program"]))
+                idx.append(len(obs) - 1)
     if not model_ok or not lines:
         return
     answers = common.Model(MODEL).ask(lines)
     for i, line, ans in zip(idx, lines, answers):
         c, ob = cases[i], obs[i]
-        stats["model_checked"] += 1
-        want = expected_model_answer(ob)
         if ans == "bad-op":
             raise common.InfraError("model rejected op for case %r" % c.text[:200])
+        if line.startswith("BYTEORDER "):
+            stats["model_bo_checked"] = stats.get("model_bo_checked", 0) + 1
+            want = expected_bo_answer(ob, ob["program"])
+            if ans == want:
+                continue
+            stats["disagreements"] += 1
+            why = byte_order_verdict(ob)
+            chk.violation("correspondence" if not why else "input",
+                          {"input": c.text, "main": c.main, "rule": c.rule, "tag": c.tag, "model": ans,
+                           "observed": want, "op": line[:4000],
+                           "expected": why or "the attached byte orders are the documented ones; model "
+                                              "and code differ",
+                           "theorem_or_correspondence": "model_c14 BYTEORDER (effByteOrder / "
+                                                        "C14_defaults_propagate) vs byte_order attributes "
+                                                        "of the IR after normalize_and_verify"},
+                          key="input:" + c.text, found_input=bool(why))
+            continue
+        stats["model_checked"] += 1
+        want = expected_model_answer(ob)
         agree = (ans == want) if want is not None else ("crash" in ans.split(" ", 1)[-1].split(";"))
         if agree:
             continue
         stats["disagreements"] += 1
         why = spec_verdict(c, ob)
-        # model says accept/reject differently from the real code: decide by the spec verdict
-        real_accepts = ob["exc"] is None and not [k for k in ob["kinds"] if k != "gate"]
-        model_accepts = ans == "errors"
-        if why is None and c.accept is None and real_accepts != model_accepts:
-            why = None
+        same_set = want is not None and sorted(ans.split(" ", 1)[-1].split(";")) == sorted(want.split(" ", 1)[-1].split(";"))
         chk.violation("correspondence" if not why else "input",
                       {"input": c.text, "main": c.main, "rule": c.rule, "tag": c.tag, "model": ans,
                        "observed": ob["exc"] or want, "op": line[:4000],
-                       "expected": why or "real code satisfies the documented rule for this case; "
-                                          "model and code differ",
+                       "locations": ob.get("locations"),
+                       "expected": why or ("real code satisfies the documented rule for this case; "
+                                           "model and code differ"
+                                           + (" only in the ORDER of the errors" if same_set else "")),
                        "theorem_or_correspondence": "model_c14 CHECK vs glue.parse_emboss_file errors"},
                       key="input:" + c.text, found_input=bool(why))
 
@@ -926,7 +1273,8 @@ def search(chk):
     r = common.rng("C14-search")
     sample = r.sample(words, min(60, len(words)))
     sample += [w for w in pinned_reserved() if w not in set(words)]
-    cases = valid_boundary_cases() + violation_cases(sample)
+    cases = (corpus_cases() + valid_boundary_cases() + array_element_cases() + default_scope_cases()
+             + violation_cases(sample))
     run_cases(chk, cases, False, stats)
     return len(chk.violations) - before
 
@@ -975,8 +1323,11 @@ def run(tier):
         prelude_oracle(chk)
     dropped = [w for w in pinned_reserved() if w not in set(words)]
     chk.extra["reserved_words_dropped_since_pinned"] = dropped[:20]
+    single = array_element_cases() + violation_cases(wsample + dropped)
     cases = (testdata_cases() + corpus_cases() + finding_cases() + valid_boundary_cases()
-             + violation_cases(wsample + dropped))
+             + default_scope_cases() + gate_cases() + single
+             + multi_violation_cases(r, single, 120 if tier == "quick" else 1500)
+             + order_cases(r, words, 40 if tier == "quick" else 400))
     # random valid modules and single mutations of them
     for i in range(n_rand):
         text, feats = rand_module(r)
